@@ -258,6 +258,12 @@ def check_program(case, ctx):
     def show():
         return " ".join(t.hex() or "''" if isinstance(t, bytes) else f"OP{t}" for t in prog) + f" ctx={case['ctx']}"
 
+    if 113 in executed:
+        # programs that execute OP_2ROT are kept apart: a listed known finding (see known_findings.json)
+        # concerns exactly this opcode, every other program is judged by the buckets below
+        ctx.label("excluded_known:2rot_executed")
+        require(accepted == want, "program/2rot_executed:verdict_differs", lambda: show()[:600])
+        return
     if want:
         require(accepted, "program/rejects_what_consensus_accepts", lambda: f"{st_}:{got!r} {show()}"[:600])
     else:
